@@ -117,6 +117,8 @@ type Runner struct {
 	probes []lockProbe
 
 	lastCollector bool               // blocktxn: a compact-block collector existed for the named block before the call
+	lastOurs      bool               // getmpdone: a getmp request was pending and the global ticket was this connection's before the call
+	lastPending   int                // getdata: bytes of postponed requests (c.unfinished_getdata) before the call, -1 = none
 	lastState     network.VerifState // connection state after the last call (zero if the connection was abandoned)
 
 	// the Run stream (runreal.go)
@@ -249,16 +251,9 @@ func frame(st string) string {
 
 // Do delivers the case to the real handler and observes.
 func (r *Runner) Do(cs Case) (o Obs) {
-	c := r.prepare(cs)
-	pl := cs.payload()
-	if len(pl) == 0 && cs.Cmd != "pong0" {
-		pl = nil // FetchMessage hands a nil payload for zero-length messages
-	}
-	r.e.quiet()
-	if cs.has("dupsid") {
-		installDupSid()
-		defer removeDupSid()
-	}
+	// configuration changes at the head of the history: the operator made them BEFORE this peer connected - the
+	// connection object is created (by the real NewConnection) under that configuration
+	lead := 0
 	if cs.reconfigures() {
 		restoreCfg := saveCfg()
 		defer func() {
@@ -268,6 +263,25 @@ func (r *Runner) Do(cs Case) (o Obs) {
 				r.e.loud()
 			}
 		}()
+		r.e.quiet()
+		for lead < len(cs.Seq) && cs.Seq[lead].Cmd == "@cfg" {
+			applyCfg(cs.Seq[lead].Pl)
+			lead++
+		}
+		r.e.loud()
+		if lead > 0 {
+			r.stale = true
+		}
+	}
+	c := r.prepare(cs)
+	pl := cs.payload()
+	if len(pl) == 0 && cs.Cmd != "pong0" {
+		pl = nil // FetchMessage hands a nil payload for zero-length messages
+	}
+	r.e.quiet()
+	if cs.has("dupsid") {
+		installDupSid()
+		defer removeDupSid()
 	}
 	limit := 20 * time.Second
 	switch {
@@ -297,7 +311,7 @@ func (r *Runner) Do(cs Case) (o Obs) {
 		}
 	}
 	pan, where, hang, dur, done := call(limit, func() {
-		for _, m := range cs.Seq {
+		for _, m := range cs.Seq[lead:] {
 			switch m.Cmd {
 			case "@cfg":
 				applyCfg(m.Pl)
@@ -325,6 +339,13 @@ func (r *Runner) Do(cs Case) (o Obs) {
 				c.VerifDrainSent()
 			}
 		}
+		// getdata: the bytes of an earlier request that was postponed (send buffer over half full), -1 = none
+		r.lastPending = -1
+		if n := c.VerifState().GetdataPending; n > 0 {
+			r.lastPending = n
+		}
+		// getmpdone: a getmp request of this connection is pending and the global ticket is its own
+		r.lastOurs = len(c.GetMP) > 0 && len(txpool.GetMPInProgressTicket) > 0 && network.GetMPInProgressConnID.Get() == int(c.ConnID)
 		r.lastCollector = false
 		if cs.Cmd == "blocktxn" && len(pl) >= 32 {
 			r.lastCollector = c.VerifCollectorFor(btc.NewUint256(pl[:32]).BIdx()) != nil
